@@ -27,7 +27,7 @@ func init() {
 			"LIKE patterns contain no backslash; non-ASCII characters in data are caseless, so ASCII folding is the case-insensitivity asserted",
 			"numeric literals are rendered without exponent; the reference model (internal/ref) is trusted",
 		},
-		Floor:         featList("op.eq", "op.ne", "op.lt", "op.le", "op.gt", "op.ge", "and", "or", "not", "in", "notin", "in.subquery", "between", "notbetween", "like", "notlike", "isnull", "isnotnull", "istrue", "isfalse", "law.partition", "law.notin", "law.between", "native-int", "in.subquery.correlated", "naming.alias", "naming.alias-unqualified", "naming.table-qualified", "const.spelled", "opt.idiomatic-arrays"),
+		Floor:         featList("op.eq", "op.ne", "op.lt", "op.le", "op.gt", "op.ge", "and", "or", "not", "in", "notin", "in.subquery", "between", "notbetween", "like", "notlike", "isnull", "isnotnull", "istrue", "isfalse", "law.partition", "law.notin", "law.between", "native-int", "in.subquery.correlated", "naming.alias", "naming.alias-unqualified", "naming.table-qualified", "const.spelled", "opt.idiomatic-arrays", "source.dual"),
 		MinNontrivial: 50,
 		Phases: []fw.Phase{
 			{Name: "pred", N: func(t fw.Tier) int { return pick(t, 16000, 600000) }, Run: c01Pred},
@@ -151,6 +151,10 @@ func c01Pred(c *fw.Case) {
 			naming = "table-qualified"
 			g.Correlate = false
 		}
+	}
+	if (c.Idx%50 == 41 || (g.Force == "" && naming == "" && c.Chance(0.03))) && len(t.Rows) > 0 {
+		c01Dual(c, t, g)
+		return
 	}
 	p := g.Gen()
 	var numText map[float64]string
@@ -334,4 +338,42 @@ func c01Laws(c *fw.Case) {
 	if len(a) > 0 && len(b) > 0 {
 		c.Nontrivial(sqlA + "|" + val.Canon(t.Array()))
 	}
+}
+
+
+// c01Dual: dual is a source of exactly one row (the document itself): WHERE
+// keeps it or drops it like any other row.
+func c01Dual(c *fw.Case, t *gen.Table, g *gen.PredGen) {
+	g.Disable = map[string]bool{"in.subquery": true}
+	g.Force = ""
+	p := g.Gen()
+	row := t.Rows[c.Intn(len(t.Rows))]
+	where, feats := c01Render(c, p, "")
+	sql := "SELECT rid FROM dual WHERE " + where
+	keep, err := ref.EvalPred(p, ref.Env{Row: row})
+	if err != nil {
+		c.Discard("reference: " + err.Error())
+		return
+	}
+	doc := map[string]any{}
+	for k, v := range row {
+		doc[k] = v
+	}
+	o := Run(doc, sql)
+	c.Feature(append(feats, "source.dual")...)
+	c.Sample(map[string]any{"sql": sql, "kept": keep})
+	det := map[string]any{"sql": sql, "doc": doc, "expected_kept": keep, "observed": o.Describe()}
+	if !o.OK() {
+		c.Violate("error", fmt.Sprintf("in-domain predicate over dual failed: %v", o.Describe()), det)
+		return
+	}
+	var want []any
+	if keep {
+		want = []any{map[string]any{"rid": row["rid"]}}
+	}
+	if !(len(want) == 0 && len(o.Rows) == 0) && !val.SameSeq(o.Rows, want) {
+		c.Violate("wrong-rows", fmt.Sprintf("WHERE over dual returned %s, the predicate is %v on the one row", short(val.Canon(o.Rows), 120), keep), det)
+		return
+	}
+	c.Nontrivial(sql + "|" + val.Canon(doc))
 }
